@@ -528,6 +528,9 @@ class Interp:
         # class-level attribute
         if any(f.name == name and not f.classvar and not f.has_default for c in o.cls.mro for f in c.fields):
             self.raise_('AttributeError', name)
+        if isinstance(payload, ast.Name) and payload.id in owner.methods:     # `inverse = transpose` in a class body
+            fi = owner.methods[payload.id]
+            return BoundMethod(FuncRef(fi, None), o, owner)
         fr = Frame(self.P.modules[owner.module])
         return self.ev(payload, fr)
 
@@ -560,8 +563,11 @@ class Interp:
             return f
         if kind == 'patched':
             return payload
+        if isinstance(payload, ast.Name) and payload.id in owner.methods:
+            f = FuncRef(owner.methods[payload.id], None)
+            f.defcls = owner
+            return f
         fr = Frame(self.P.modules[owner.module])
-        fr.vars.update({})
         return self.ev(payload, fr)
 
     def ev_Subscript(self, e, fr):
@@ -583,7 +589,7 @@ class Interp:
             return self.call_method(v, '__getitem__', [idx], {})
         if hasattr(v, 'py_getitem'):
             return v.py_getitem(self, idx)
-        if isinstance(v, (ClassRef, Ext)):
+        if isinstance(v, (ClassRef, Ext)) or (isinstance(v, PyFunc) and v.name in ('tuple', 'list', 'dict', 'type', 'set')):
             return v                       # Generic[T] subscripting: RuleRegistry[AbstractBinaryRule]
         if is_z3(v) and self.theory is not None:
             r = self.theory.sort_getitem(self, v, idx)
